@@ -490,6 +490,50 @@ static void wide_row_case(uint64_t idx, void *vctx)
     if (!vf_in_confirm) vf_outcome(h);
 }
 
+/* ---------------- pixman_fill / pixman_blt on a view: empty and tiny requests at every position ----------------
+ * The view is 7 pixels wide inside a parent whose rows are 32 bytes; everything outside the described rectangle - in particular everything when the
+ * rectangle is empty - belongs to someone else and must keep its value (a fill that aligns its start before looking at the width writes there). */
+static void tiny_fill_case(uint64_t idx, void *vctx)
+{
+    (void)vctx;
+    static const int bpps[4] = { 8, 16, 32, 1 };
+    int dims[6] = { 4, 10, 3, 4, 3, 2 }, d[6]; vf_decode(idx, dims, 6, d);
+    int bpp = bpps[d[0]], x = d[1], y = d[2], w = d[3], h = d[4], api = d[5];
+    enum { ROWS = 4, STRIDE_W = 8 };                               /* 8 words = 32 bytes per row */
+    static const int LCF[2] = { PH_CFG_DEFAULT, PH_CFG_GENERAL };
+    for (int ci = 0; ci < 2; ci++) {
+        uint32_t parent[ROWS * STRIDE_W + 2], before[ROWS * STRIDE_W + 2], src[ROWS * STRIDE_W + 2];
+        for (int i = 0; i < ROWS * STRIDE_W + 2; i++) { parent[i] = before[i] = 0x5e6f7a8bu ^ (uint32_t)i * 0x01010101u; src[i] = 0xc3d2e1f0u ^ (uint32_t)i * 0x02040608u; }
+        ph_set_cfg(LCF[ci]);
+        if (y + h > ROWS || (x + w) * bpp > STRIDE_W * 32 || (api == 1 && (1 + w) * bpp > STRIDE_W * 32)) continue;      /* the rectangle itself lies inside the rows */
+        int ret;
+        if (api == 0) ret = pixman_fill(parent + 1, STRIDE_W, bpp, x, y, w, h, 0xffffffffu);
+        else { if (bpp == 1) continue; ret = pixman_blt(src + 1, parent + 1, STRIDE_W, STRIDE_W, bpp, bpp, 1, 0, x, y, w, h); }
+        vf_count_libcalls(1);
+        /* model */
+        uint32_t exp[ROWS * STRIDE_W + 2]; memcpy(exp, before, sizeof exp);
+        if (ret) for (int yy = y; yy < y + h; yy++) for (int xx = x; xx < x + w; xx++) {
+            uint8_t *row = (uint8_t *)(exp + 1) + (size_t)yy * STRIDE_W * 4; const uint8_t *srow = (const uint8_t *)(src + 1) + (size_t)yy * STRIDE_W * 4;
+            if (bpp == 1) { uint32_t *wd = (uint32_t *)row + (xx >> 5); *wd |= 1u << (xx & 31); }
+            else for (int b = 0; b < bpp / 8; b++) row[xx * (bpp / 8) + b] = api == 0 ? 0xff : srow[(xx - x + 1) * (bpp / 8) + b + (size_t)(0 - 0)];
+        }
+        if (api == 1 && ret) {   /* blt copies from (1, 0) of the source: rows start at 0 */
+            memcpy(exp, before, sizeof exp);
+            for (int yy = 0; yy < h; yy++) for (int xx = 0; xx < w; xx++) for (int b = 0; b < bpp / 8; b++)
+                ((uint8_t *)(exp + 1))[(size_t)(y + yy) * STRIDE_W * 4 + (size_t)(x + xx) * (bpp / 8) + b] = ((const uint8_t *)(src + 1))[(size_t)yy * STRIDE_W * 4 + (size_t)(1 + xx) * (bpp / 8) + b];
+        }
+        if (ret && memcmp(parent, exp, sizeof exp)) {
+            int at = 0; for (int i = 0; i < (int)sizeof exp; i++) if (((uint8_t *)parent)[i] != ((uint8_t *)exp)[i]) { at = i; break; }
+            vf_violation("c04-fill-blt-wrote-outside-the-rectangle", "%s(bpp=%d, x=%d, y=%d, width=%d, height=%d) on rows of %d bytes%s returned %d: byte %d of row %d of the parent buffer is %#04x, expected %#04x (was %#04x)",
+                         api ? "pixman_blt" : "pixman_fill", bpp, x, y, w, h, STRIDE_W * 4, ci ? " [general chain]" : "", ret, (at - 4) % (STRIDE_W * 4), (at - 4) / (STRIDE_W * 4), ((uint8_t *)parent)[at], ((uint8_t *)exp)[at], ((uint8_t *)before)[at]);
+            return;
+        }
+        if (!ret && memcmp(parent, before, sizeof before)) { vf_violation("c04-fill-blt-wrote-outside-the-rectangle", "%s(bpp=%d, x=%d, y=%d, width=%d, height=%d) returned FALSE but changed the buffer", api ? "pixman_blt" : "pixman_fill", bpp, x, y, w, h); return; }
+    }
+    vf_count_eval(1); vf_count_nontrivial(w && h);
+    if (!vf_in_confirm) vf_outcome(idx);
+}
+
 /* ---------------- same-shape copies between views of larger buffers ----------------
  * Source and destination have the same format, width, height and a stride LARGER than a row, and each is a view whose last row
  * ends exactly at a PROT_NONE page (the bytes between rows belong to a parent image, the bytes after the last row do not exist).
@@ -687,6 +731,7 @@ int main(int argc, char **argv)
     vf_space_run("rotations-covering-the-source-tightly", (uint64_t)2 * 6 * 6 * 6 * 4 * 4 * 2, tight_rot_case, NULL);
     vf_space_run("alpha-maps-of-other-sizes", (uint64_t)2 * 4 * 4 * 3 * 4 * 4 * 6 * 6, amap_case, NULL);
     vf_space_run("rows-wider-than-the-stack-scanline-buffers", (uint64_t)10 * 5 * 4 * 3 * 2 * 2, wide_row_case, NULL);
+    vf_space_run("empty-and-tiny-fills-and-blts-on-a-view", 4 * 10 * 3 * 4 * 3 * 2, tiny_fill_case, NULL);
     vf_space_run("same-shape-copies-between-views", (uint64_t)6 * 4 * 3 * NCFG_LIST * 2, copy_case, NULL);
     vf_space_run("glyph-positions", (uint64_t)14 * 14 * 3 * 2 * 3, glyph_case, NULL);
     vf_space_run("create-bits-sizes", 9 * 9 * 6, create_case, NULL);
